@@ -218,7 +218,11 @@ def run(replay=None):
         if not {'raw', 'xprv'} <= control_found:
             raise MachineryError('control run without field encryption: the scanner did not find the stored keys (%s)' % sorted(control_found))
         never = sorted(k for k, n in performed.items() if n == 0 and k[1] not in ('mainkey_key',))
-        if never:
+        ck.notes['calls_never_performed_successfully'] = [list(k) for k in never]
+        # a public view that was never taken makes the run vacuous; a seeded filler call (new_account, send, ...) that did
+        # not happen to succeed in this run does not
+        fatal = [k for k in never if k[0] != 'wallet' or k[1] not in c16_drv.W_FILLERS]
+        if fatal or len(never) > 3:
             raise MachineryError('calls never performed successfully (vacuous): %s' % never)
         for r in dres:
             if r['nsecrets'] < 10:
